@@ -17,6 +17,17 @@ pub enum Op {
     Restart,
     Advance(u32),
     Burst(Vec<Vec<usize>>),
+    /// an append whose message argument panics while being formatted: it unwinds out of the appender (the caller
+    /// catches it) and must leave the appender usable
+    Unwind,
+}
+
+struct PanickingArg;
+
+impl std::fmt::Display for PanickingArg {
+    fn fmt(&self, _: &mut std::fmt::Formatter) -> std::fmt::Result {
+        panic!("Display impl of a log argument panics")
+    }
 }
 
 #[derive(Serialize, Deserialize, Debug, Clone)]
@@ -75,6 +86,7 @@ pub fn strategy() -> impl Strategy<Value = Case> {
         2 => Just(Op::Restart),
         3 => prop_oneof![Just(0u32), Just(1), 1u32..200].prop_map(Op::Advance),
         1 => prop::collection::vec(prop::collection::vec(0usize..60, 1..=12), 2..=5).prop_map(Op::Burst),
+        1 => Just(Op::Unwind),
     ];
     (
         trigger_strategy(),
@@ -178,12 +190,14 @@ fn check_in(dir: &Path, case: &Case, obs: &mut Obs) -> CaseResult {
     let mut restarted_since_rotation = false;
     let mut big_record = false;
     let mut burst_seen = false;
+    let mut unwound = false;
     let mut prev_active: Vec<u8> = vec![];
     let count = window_count(&case.roller);
     let limit = if let TrigSpec::Size(n) = &case.trigger { Some(*n) } else { None };
     for (oi, op) in case.ops.iter().enumerate() {
         let (_, archives_before) = read_chunks(dir, &case.roller, &active)?;
         let mut burst_records: Option<Vec<Vec<RecId>>> = None;
+        let _ = &mut unwound;
         match op {
             Op::Append(len) => {
                 let id = RecId { tid: 0, seq, len: *len };
@@ -202,6 +216,16 @@ fn check_in(dir: &Path, case: &Case, obs: &mut Obs) -> CaseResult {
                 }
                 if record_size(*len) > 1024 || limit.map_or(false, |l| record_size(*len) as u64 > l) {
                     big_record = true;
+                }
+            }
+            Op::Unwind => {
+                use log4rs::append::Append;
+                let r = catch(|| app.append(&log::Record::builder().args(format_args!("{}", PanickingArg)).level(log::Level::Info).target("t").build()));
+                match r {
+                    Err(_) => unwound = true,
+                    // (a failing rotation ahead of the encoder ends the call first)
+                    Ok(Err(_)) => {}
+                    Ok(Ok(())) => return fail("C05:harness", "the panicking argument did not panic"),
                 }
             }
             Op::Restart => {
@@ -321,6 +345,7 @@ fn check_in(dir: &Path, case: &Case, obs: &mut Obs) -> CaseResult {
     obs.class_if(restart_between, "restart-between-rotations");
     obs.class_if(big_record, "record>limit-or->1KiB");
     obs.class_if(burst_seen, "burst");
+    obs.class_if(unwound, "append-unwound-by-panicking-argument");
     obs.class_if(case.chunks.is_some(), "multi-chunk-encoder");
     obs.class_if(!case.append_mode, "truncate-mode");
     obs.class_if(failures.load(std::sync::atomic::Ordering::SeqCst) > 0, "scripted-roller-failure");
